@@ -53,8 +53,13 @@ Definition int_window_h : N :=
 
 (* ---- the growth test of the call instructions ---- *)
 
-(* `if vm.fp[i]+Addr(fn.NumReg[i]) > vm.st[i] { vm.moreXStack() }`: the new stack top *)
+(* `if vm.fp[i]+Addr(fn.NumReg[i]) >= vm.st[i] { vm.moreXStack() }`: the new stack top
+   (the operator is checked against the code by the generated fact growth_checks_all_ge) *)
 Definition after_call_check (fp numreg st : nat) : nat :=
+  if Nat.leb st (fp + numreg) then 2 * st else st.
+
+(* the test as it was before fix 06a16cd, with > *)
+Definition after_call_check_gt (fp numreg st : nat) : nat :=
   if Nat.ltb st (fp + numreg) then 2 * st else st.
 
 (* ---- line protocol: [fpHi; fpLo; off; k; regs...] -> the k values seen by the goroutine, or [255] for a panic;
